@@ -273,6 +273,9 @@ func (s *sim) replicate(f int, count int, split []int, alter func(*raft.Log)) *c
 // settle waits for the node's verifier and judges every delivered report.
 func (s *sim) settle(n *Node) *common.Failure {
 	n.Quiesce()
+	if n.AccountingFail != "" {
+		return common.Failf("checkpoint-unaccounted", "%s", n.AccountingFail)
+	}
 	for _, r := range n.TakeReports() {
 		if f := s.judge(n, r); f != nil {
 			return f
